@@ -29,11 +29,14 @@ type svidSource struct {
 // GetX509SVID returns the current X.509 certificate identity as a SPIFFE SVID.
 // Implements the go-spiffe x509 source interface.
 func (s *svidSource) GetX509SVID() (*x509svid.SVID, error) {
+	// Wait for readiness before taking the read lock. Run closes readyCh while
+	// it holds the write lock, so a reader which holds the read lock while
+	// waiting for readyCh blocks Run forever if it got there first.
+	<-s.spiffe.readyCh
+
 	s.spiffe.lock.RLock()
 	defer s.spiffe.lock.RUnlock()
 	verifhook.Point("spiffe.svid.afterRLock")
-
-	<-s.spiffe.readyCh
 
 	svid := s.spiffe.currentSVID
 	if svid == nil {
